@@ -139,7 +139,7 @@ func HC13_Determinism() {
 	// registered filters (their table lists are maintained through map lookups)
 	m1, m2 := All(x1.id[uA]), All(x2.id[uA])
 	c1, c2 := x1.w.Cache().Register(&m1), x2.w.Cache().Register(&m2)
-	switch vChoice("scenario", 4) {
+	switch vChoice("scenario", 5) {
 	case 0:
 		pf := [6]int{3, 8, 1, 5, 7, 9}[vChoice("prefix", 3+3*vTier())]
 		x1.prefix(pf)
@@ -188,6 +188,29 @@ func HC13_Determinism() {
 			x.opNewEntityWith(A | B)
 			x.opNewEntity(0)
 			x.opBuilderNew(A|R1, uR1, true, x.h[3], false)
+		}
+		vMapOrderFixed(false)
+	case 4: // Reset of a relation node whose free list is longer than its set of live tables
+		A, R1 := uint8(1<<uA), uint8(1<<uR1)
+		for k, x := range [2]*hW{x1, x2} {
+			vMapOrderFixed(k == 0)
+			for j := 0; j < 5; j++ {
+				x.opNewEntity(0)
+			}
+			for j := 0; j < 5; j++ {
+				x.opBuilderNew(A|R1, uR1, true, x.h[j], false)
+			}
+			for j := 0; j < 3; j++ { // three tables retired, two stay live
+				x.opRemoveEntity(5 + j)
+				x.opRemoveEntity(j)
+			}
+			x.opReset()
+			for j := 0; j < 3; j++ {
+				x.opNewEntity(0)
+			}
+			for j := 0; j < 3; j++ {
+				x.opBuilderNew(A|R1, uR1, true, x.h[j], false)
+			}
 		}
 		vMapOrderFixed(false)
 	default: // several targets die in one batch call, their table slots are re-used afterwards
